@@ -83,10 +83,18 @@ def run_property(pid, tier, seed):
         sess = kani_mod.KaniSession(pid)
         try:
             woven = set()
+            broken = {}
             for u, _ in kani_sel:
-                if u['unit'] not in woven:
-                    sess.weave(u)
-                    woven.add(u['unit'])
+                if u['unit'] not in woven and u['unit'] not in broken:
+                    try:
+                        sess.weave(u)
+                        woven.add(u['unit'])
+                    except (Infra, rustscan.ScanError) as e:
+                        broken[u['unit']] = str(e)[:600]
+            for u, ob in kani_sel:
+                if u['unit'] in broken:
+                    results[ob['id']] = {'status': 'undecided', 'backend': 'kani', 'why': 'weave of unit %s failed: %s' % (u['unit'], broken[u['unit']])}
+            kani_sel = [(u, ob) for u, ob in kani_sel if u['unit'] not in broken]
             by_crate = {}
             for u, ob in kani_sel:
                 by_crate.setdefault(u['crate'], []).append((u, ob))
@@ -136,12 +144,22 @@ def run_property(pid, tier, seed):
         if u['backend'] == 'verus':
             verus_units.setdefault(u['unit'], (u, []))[1].append(ob)
     for name, (u, obs) in verus_units.items():
-        vr = verus_mod.run_unit(u, obs, tier, seed)
+        try:
+            vr = verus_mod.run_unit(u, obs, tier, seed)
+        except (Infra, rustscan.ScanError) as e:
+            # a tool limit in one unit leaves that unit's obligations undecided; the other units still decide theirs
+            for ob in obs:
+                results[ob['id']] = {'status': 'undecided', 'backend': 'verus', 'why': 'unit %s: %s' % (name, str(e)[:600])}
+            continue
         cmds.append(vr['cmd'])
         solver_time['verus:' + name] = vr['time_s']
         assumptions += vr['assumptions']
         for ob in obs:
             results[ob['id']] = vr['results'][ob['id']]
+            if vr.get('auto_included') or vr.get('degraded'):
+                # the contracts could not be woven as written (helpers without contract, lost loop/anchor):
+                # a failed proof is then a violation only if a failing input is found
+                results[ob['id']]['auto_included'] = (vr.get('auto_included') or []) + (vr.get('degraded') or [])
 
     return finish(pid, tier, seed, sel, results, cmds, solver_time, assumptions, list(involved.values()), t0)
 
@@ -211,6 +229,7 @@ def finish(pid, tier, seed, sel, results, cmds, solver_time, assumptions, units,
 
     os.makedirs(os.path.join(VERIF, 'replay'), exist_ok=True)
     out_lines = []
+    downgraded = []
     for u, ob, r in violations:
         rp = os.path.join(VERIF, 'replay', '%s.%s.json' % (pid, ob['id']))
         inputs = r.get('inputs')
@@ -219,7 +238,7 @@ def finish(pid, tier, seed, sel, results, cmds, solver_time, assumptions, units,
                'inputs': inputs, 'playback': r.get('playback'), 'replay': ob.get('replay'),
                'witness': r.get('witness')}
         confirmed = None
-        if ob.get('replay') and inputs:
+        if ob.get('replay') and (inputs or not ob.get('inputs')):
             from . import replay as replay_mod
             confirmed, text = replay_mod.run_replay(doc)
             doc['replay_output'] = text
@@ -233,6 +252,12 @@ def finish(pid, tier, seed, sel, results, cmds, solver_time, assumptions, units,
             doc['replay_confirms_violation'] = confirmed
             doc['witness'] = text if confirmed else None
         write(rp, json.dumps(doc, indent=1))
+        if r.get('auto_included') and not confirmed:
+            # the proof failed in code that had to be pulled in without a contract: undecided, not an alarm
+            doc['downgraded'] = 'contracts could not be woven as written (%s); no native witness found' % r['auto_included']
+            write(rp, json.dumps(doc, indent=1))
+            downgraded.append((ob, r))
+            continue
         tail = '' if confirmed else ' no-failing-input-found'
         out_lines.append('VIOLATION property=%s replay=%s obligation=%s%s' % (pid, rp, ob['id'], tail))
 
@@ -267,17 +292,44 @@ def finish(pid, tier, seed, sel, results, cmds, solver_time, assumptions, units,
         cov['distinct_nontrivial'] = len({ob['id'] for _, ob in sel if results[ob['id']]['status'] in ('discharged',)})
         cov['rule'] = 'one evaluation per contract obligation / harness; distinct = distinct obligation ids whose harness ran to a verdict with satisfied covers'
     ev = {'property_id': pid, 'tier': tier, 'seed': seed, 'level': level, 'coverage': cov,
-          'assumptions': assumptions, 'wall_s': round(time.time() - t0, 2), 'violations': len(violations)}
+          'assumptions': assumptions, 'wall_s': round(time.time() - t0, 2), 'violations': len(out_lines)}
     write(os.path.join(VERIF, 'evidence', pid + '.json'), json.dumps(ev, indent=1))
     for l in known_lines:
         print(l)
     for l in out_lines:
         print(l)
-    if violations:
+    # Undecided obligations (tool limit): the unit's bounded native search still runs against the real code; a failing
+    # input it finds is a real violation (replayed), its silence decides nothing (the check stays UNDECIDED).
+    searched = {}
+    for ob, r in list(undecided) + list(downgraded):
+        rec = ob.get('search')
+        if not rec or tuple(rec) in searched:
+            continue
+        from . import replay as replay_mod
+        confirmed, text = replay_mod.run_replay({'replay': rec, 'inputs': None})
+        searched[tuple(rec)] = (confirmed, text)
+        if confirmed:
+            oid = ob['id'].split('.')[0] + '.unit-undecided'
+            rp = os.path.join(VERIF, 'replay', '%s.%s.json' % (pid, oid))
+            write(rp, json.dumps({'property': pid, 'obligation': oid, 'clause': 'every obligation of unit %s (the verifier could not process the unit)' % ob['id'].split('.')[0], 'backend': 'native-bounded-search',
+                                  'verifier_reason': 'verifier could not decide (%s); bounded native search over the real code found a failing input' % str(r.get('why'))[:300],
+                                  'replay': rec, 'witness': text, 'replay_output': text, 'replay_confirms_violation': True}, indent=1))
+            out_lines.append('VIOLATION property=%s replay=%s obligation=%s (verifier undecided; failing input found by the bounded native search)' % (pid, rp, oid))
+            print(out_lines[-1])
+    if searched:
+        ev['violations'] = len(out_lines)
+        ev['coverage']['bounded_native_search'] = [{'recipe': list(k), 'found_failing_input': bool(v[0]), 'output': str(v[1])[:400]} for k, v in searched.items()]
+        write(os.path.join(VERIF, 'evidence', pid + '.json'), json.dumps(ev, indent=1))
+    for ob, r in downgraded:
+        undecided.append((ob, dict(r, why='proof failed where the contracts could not be woven as written (%s) and no failing input was found' % r.get('auto_included'))))
+    if out_lines:
         return 1
     if undecided:
+        by_reason = {}
         for ob, r in undecided:
-            print('UNDECIDED property=%s obligation=%s reason=%s' % (pid, ob['id'], r.get('why')))
+            by_reason.setdefault(str(r.get('why'))[:300], []).append(ob['id'])
+        for why, ids in by_reason.items():
+            print('UNDECIDED property=%s obligations=%d (%s%s) reason=%s' % (pid, len(ids), ', '.join(ids[:3]), ', ...' if len(ids) > 3 else '', why))
         return 2
     print('OK property=%s tier=%s obligations=%d discharged=%d bounded=%d wall_s=%.1f' % (
         pid, tier, len(proved), n_discharged, len(bounded), time.time() - t0))
